@@ -81,7 +81,10 @@ func (s PolicySpec) Build() *ae.CryptoPolicy {
 	}
 	if s.IKPolicy != "" {
 		p.IntermediateKeyCacheEvictionPolicy = s.IKPolicy
-		p.IntermediateKeyCacheMaxSize = s.IKSize
+		if !s.SharedIK {
+			// (a shared cache got its capacity from WithSharedIntermediateKeyCache above: not overridden here)
+			p.IntermediateKeyCacheMaxSize = s.IKSize
+		}
 	}
 	if s.SKPolicy != "" {
 		p.SystemKeyCacheEvictionPolicy = s.SKPolicy
